@@ -63,6 +63,7 @@ def run(ctx: common.Run):
     check_controlled(ctx, cirq, n * 6)
     check_phase_by(ctx, cirq, n * 3)
     check_predicates(ctx, cirq, n * 8)
+    check_equality_pool(ctx, cirq)
 
 
 # ------------------------------------------------------------------------------ powers
@@ -453,6 +454,51 @@ def check_predicates(ctx, cirq, n):
             if worst > bound + 1e-6:
                 ctx.report_witness(f'predicate:trace_distance_bound:{fname.split("[")[0].split(" ")[0]}', 'trace_distance_bound of an operation is smaller than an achieved trace distance',
                                    {'lines': [{'op': repr(op)}], 'impl_out': [bound], 'spec_out': [worst], 'theorem_or_correspondence': 'trace_distance_bound_partial'})
+
+
+def check_equality_pool(ctx, cirq):
+    """equality never identifies gates of different shape or different matrix: all pairs of a pool of gates whose
+    constructors take a size, a shape or a dimension"""
+    d = cirq.Duration(nanos=4)
+    pool = [
+        cirq.WaitGate(d), cirq.WaitGate(d, num_qubits=2), cirq.WaitGate(d, qid_shape=(3,)), cirq.WaitGate(d, qid_shape=(2, 3)), cirq.WaitGate(d, qid_shape=[2, 2]), cirq.WaitGate(cirq.Duration(nanos=5)),
+        cirq.IdentityGate(1), cirq.IdentityGate(2), cirq.IdentityGate(qid_shape=(3,)), cirq.IdentityGate(qid_shape=(2, 3)), cirq.I,
+        cirq.X, cirq.XPowGate(dimension=3), cirq.XPowGate(dimension=4), cirq.Z, cirq.ZPowGate(dimension=3), cirq.X ** 2, cirq.XPowGate(dimension=3) ** 2, cirq.XPowGate(dimension=3) ** 3, cirq.XPowGate(dimension=3) ** 0,
+        cirq.ZPowGate(dimension=3) ** 3, cirq.ZPowGate(dimension=3) ** 0, cirq.Z ** 0, cirq.Z ** 2,
+        cirq.MatrixGate(np.eye(2)), cirq.MatrixGate(np.eye(4)), cirq.MatrixGate(np.eye(4), qid_shape=(4,)), cirq.MatrixGate(np.eye(3), qid_shape=(3,)), cirq.MatrixGate(np.eye(6), qid_shape=(2, 3)), cirq.MatrixGate(np.eye(6), qid_shape=(3, 2)),
+        cirq.QubitPermutationGate([0]), cirq.QubitPermutationGate([0, 1]), cirq.QubitPermutationGate([1, 0]), cirq.QubitPermutationGate([0, 1, 2]), cirq.SWAP,
+        cirq.DiagonalGate([0.0, 0.0]), cirq.DiagonalGate([0.0] * 4), cirq.TwoQubitDiagonalGate([0.0] * 4), cirq.ThreeQubitDiagonalGate([0.0] * 8), cirq.DiagonalGate([0.0] * 8),
+        cirq.GlobalPhaseGate(1), cirq.GlobalPhaseGate(-1), cirq.GlobalPhaseGate(1j),
+        cirq.ControlledGate(cirq.Z), cirq.ControlledGate(cirq.Z, num_controls=2), cirq.ControlledGate(cirq.Z, control_qid_shape=(3,)), cirq.ControlledGate(cirq.Z, control_values=[0]), cirq.CZ, cirq.CCZ,
+        cirq.ControlledGate(cirq.Z, control_values=[2], control_qid_shape=(3,)), cirq.ControlledGate(cirq.Z, control_values=[(0, 1)]),
+        cirq.PhaseGradientGate(num_qubits=1, exponent=1.0), cirq.PhaseGradientGate(num_qubits=2, exponent=1.0), cirq.PhaseGradientGate(num_qubits=2, exponent=0.5),
+        cirq.QuantumFourierTransformGate(1), cirq.QuantumFourierTransformGate(2), cirq.QuantumFourierTransformGate(2, without_reverse=True), cirq.H,
+        cirq.ParallelGate(cirq.X, 1), cirq.ParallelGate(cirq.X, 2), cirq.ParallelGate(cirq.X, 3),
+        cirq.BooleanHamiltonianGate(['a'], ['a'], 0.5), cirq.BooleanHamiltonianGate(['a', 'b'], ['a'], 0.5), cirq.BooleanHamiltonianGate(['a', 'b'], ['b'], 0.5),
+        cirq.PauliStringPhasorGate(cirq.DensePauliString('X'), exponent_neg=0.5), cirq.PauliStringPhasorGate(cirq.DensePauliString('XI'), exponent_neg=0.5), cirq.PauliStringPhasorGate(cirq.DensePauliString('IX'), exponent_neg=0.5),
+        cirq.DensePauliString('X'), cirq.DensePauliString('XI'), cirq.DensePauliString('IX'), cirq.DensePauliString('X', coefficient=-1),
+        cirq.PhasedXZGate(x_exponent=0, z_exponent=0, axis_phase_exponent=0), cirq.PhasedXZGate(x_exponent=0, z_exponent=0, axis_phase_exponent=0.3), cirq.PhasedXPowGate(phase_exponent=0.3, exponent=0), cirq.PhasedXPowGate(phase_exponent=0.1, exponent=0),
+        cirq.FSimGate(0, 0), cirq.PhasedFSimGate(0, 0, 0, 0, 0), cirq.FSimGate(2 * np.pi, 0), cirq.PhasedFSimGate(0, 0.1, 0.2, 0.3, 0), cirq.PhasedFSimGate(0, 0.1, 0.2, 0.4, 0),
+    ]
+    for ga, gb in itertools.combinations(pool, 2):
+        try:
+            same = bool(ga == gb)
+        except Exception:
+            continue
+        ctx.count('check', f'pool-eq:{same}')
+        ctx.case(['pool-eq', repr(ga), repr(gb)], True)
+        if not same:
+            continue
+        ok = cirq.qid_shape(ga) == cirq.qid_shape(gb)
+        if ok and cirq.has_unitary(ga):
+            ok = np.allclose(cirq.unitary(ga), cirq.unitary(gb), atol=1e-7)
+        try:
+            hashes = hash(ga) == hash(gb)
+        except TypeError:
+            hashes = True
+        if not ok or not hashes:
+            ctx.report_witness('predicate:eq:shape', 'two gates compare equal but act on different shapes / have different matrices / hash differently',
+                               {'lines': [{'a': repr(ga), 'b': repr(gb)}], 'impl_out': ['a == b', str(cirq.qid_shape(ga)), str(cirq.qid_shape(gb))], 'spec_out': ['different gates'], 'theorem_or_correspondence': 'equality_sound'})
 
 
 def replay(ctx, rep):
